@@ -44,6 +44,10 @@ type c10Case struct {
 	// C11 only: the write with this 1-based index (and every later one) fails at the transport --
 	// the link dies just when a credential is being sent; only the log oracle applies then
 	WriteErr int `json:"write_err,omitempty"`
+	// C11 escalations only: the escalation runs inside the driver's on-open hook (as the stock
+	// platforms do), and the link dies ("eof" | "ioerr" on every read) right AFTER the secret has
+	// been written; whatever the library logs about the failed open must not contain the secret
+	LossAfterSecret string `json:"loss_after_secret,omitempty"`
 }
 
 var c10Secrets = []string{"p4ssw0rd", "s3cr3t!", "%s%d%v", "a.b*c+?", "redacted", "pa$$(w)[o]rd", "x y z", "päss", "^caret$", "100%!"}
@@ -70,6 +74,10 @@ func genC10(prop string, r *sim.Rng, i int) *c10Case {
 		c.Kind = "escalate"
 		c.Secret = r.Pick(c10Secrets)
 		c.OnAuth = r.Intn(3)
+		if c.WriteErr == 0 && r.Chance(1, 3) {
+			c.OnAuth = 0 // the device asks for the secret
+			c.LossAfterSecret = r.Pick([]string{"eof", "ioerr"})
+		}
 		return c
 	}
 	banners := [][]string{nil, {"Warning: Permanently added '1.2.3.4' (ED25519) to the list of known hosts."}, {"**** Authorised access only ****", ""},
